@@ -433,12 +433,12 @@ def run(ctx):
 
     hits = run_corpus(ctx, exe, known)
     run_malformed(ctx, exe)
-    count = 420 if not ctx.thorough else 6000
+    count = 2000 if not ctx.thorough else 40000
     cases = gen_cases(ctx, count)
     # the class of K-C13-1 (xml:space="preserve" above a stripped node) is generated apart, and only counted
     xs_cases = [gen_case(ctx, "x%d" % i, "xml-space", xmlspace=True, nblocks=2) for i in range(12 if not ctx.thorough else 200)]
     # the class of K-C13-2 (xsl:number level="any" with from) likewise
-    xs_cases += [gen_case(ctx, "y%d" % i, "number-any-from", blocks=["number-any-from"]) for i in range(12 if not ctx.thorough else 200)]
+    xs_cases += [gen_case(ctx, "y%d" % i, "number-any-from", blocks=["number-any-from"], size=ctx.rng.choice([6, 10, 16])) for i in range(40 if not ctx.thorough else 400)]
     ctx.cov["samples"] = [sg.sheet_model(c["main"]) + " on " + sg.serialize(c["doc"])[:120] for c in cases[200:206]]
     corr, orc, kn = evaluate(ctx, cases + xs_cases, exe, model)
     if model:
@@ -447,7 +447,7 @@ def run(ctx):
             ctx.broken.append("correspondence number walk (K-C13-2 model): %d cases differ, e.g. %s" % (len(nbad), nbad[0][:400]))
     if (corr or not proved or not model or ctx.broken) and not orc and not ctx.thorough:
         ctx.escalated = True
-        more = gen_cases(ctx, 2500, prefix="e")
+        more = gen_cases(ctx, 12000, prefix="e")
         c2, o2, k2 = evaluate(ctx, more, exe, model)
         corr += c2
         orc += o2
